@@ -1316,176 +1316,4 @@ theorem safe_execute (u : List Site) (e : Env) (hr : .gAdmins ∈ u ∨ e.admins
     exact safe_execGov u e (typesValidate_gov htv ht) hr hrpc hv hc
   · exact safe_ok _
 
-/-! ### Which sites pool admission can reach at all
-
-A second, purely syntactic pass: whatever the guards, `poolAdmit` only ever traps at a site of
-`admissionSites` (the execution-only traps `vDao*`, `vBpCand`, `rAddSlice`, `rSubNil`, `nEx*`, `x*` do
-not occur in it).  Together with `safe_poolAdmit` this gives full-strength admission totality as soon as
-no admission site is left in `pinned`. -/
-
-open Site in
-def admissionSites : List Site := [tNameUpdTo, tNameOwner0, tNameCommon0, sParseId0, sCandSlice, nVal0, eAdmin0,
-  eEnable0, eEnable1, eCtx0, eCtxTail, eCtx1, eCheckArgs0, eRpcVals0, eCc0, cRpcSplit, gAdmins]
-
-theorem reach_fixGuard {L : List Site} (u : List Site) (s : Site) (c : Bool) (r : Rej) : Safe L (fixGuard u s c r) := by
-  unfold fixGuard; split <;> first | exact safe_reject _ | exact safe_ok _
-
-syntax "reach_lemma" : tactic
-macro_rules | `(tactic| reach_lemma) => `(tactic| fail "no lemma")
-
-/-- Discharge `Safe admissionSites (…)` for a function body built from binds, `if`/`match`, rejections,
-guards and traps at admission sites. -/
-macro "reach" : tactic => `(tactic| repeat (first
-  | exact safe_ok _ | exact safe_pure _ | exact safe_reject _ | exact safe_rejectIf _ _ | exact reach_fixGuard _ _ _ _
-  | reach_lemma
-  | (apply safe_idx; left; decide) | (apply safe_sliceFrom; left; decide) | (apply safe_argStr; left; decide)
-  | (apply safe_panic; decide)
-  | apply safe_bind | intro _ _ | split))
-
-theorem reach_typesNameCommon (ci : CallInfo) : Safe admissionSites (typesNameCommon ci) := by
-  unfold typesNameCommon; reach
-macro_rules | `(tactic| reach_lemma) => `(tactic| exact reach_typesNameCommon _)
-
-theorem reach_typesName (u : List Site) (e : Env) (ci : CallInfo) : Safe admissionSites (typesName u e ci) := by
-  unfold typesName; reach
-macro_rules | `(tactic| reach_lemma) => `(tactic| exact reach_typesName _ _ _)
-
-theorem reach_typesSystem (u : List Site) (e : Env) (ci : CallInfo) : Safe admissionSites (typesSystem u e ci) := by
-  unfold typesSystem; reach
-macro_rules | `(tactic| reach_lemma) => `(tactic| exact reach_typesSystem _ _ _)
-
-theorem reach_typesGov (u : List Site) (e : Env) : Safe admissionSites (typesGov u e) := by
-  unfold typesGov; reach
-macro_rules | `(tactic| reach_lemma) => `(tactic| exact reach_typesGov _ _)
-
-theorem reach_typesValidate (u : List Site) (e : Env) : Safe admissionSites (typesValidate u e) := by
-  unfold typesValidate; reach
-macro_rules | `(tactic| reach_lemma) => `(tactic| exact reach_typesValidate _ _)
-
-theorem reach_senderGov (e : Env) : Safe admissionSites (senderGov e) := by
-  unfold senderGov; reach
-macro_rules | `(tactic| reach_lemma) => `(tactic| exact reach_senderGov _)
-
-theorem reach_senderState (e : Env) (b : Bool) : Safe admissionSites (senderState e b) := by
-  unfold senderState; reach
-macro_rules | `(tactic| reach_lemma) => `(tactic| exact reach_senderState _ _)
-
-theorem reach_validateForVote (e : Env) (i : Nat) : Safe admissionSites (validateForVote e i) := by
-  unfold validateForVote; reach
-macro_rules | `(tactic| reach_lemma) => `(tactic| exact reach_validateForVote _ _)
-
-theorem reach_sysValidate (u : List Site) (e : Env) : Safe admissionSites (sysValidate u e) := by
-  unfold sysValidate; reach
-macro_rules | `(tactic| reach_lemma) => `(tactic| exact reach_sysValidate _ _)
-
-theorem reach_nameState (e : Env) (ci : CallInfo) : Safe admissionSites (nameState e ci) := by
-  unfold nameState; reach
-macro_rules | `(tactic| reach_lemma) => `(tactic| exact reach_nameState _ _)
-
-theorem reach_nameValidate (e : Env) : Safe admissionSites (nameValidate e) := by
-  unfold nameValidate; reach
-macro_rules | `(tactic| reach_lemma) => `(tactic| exact reach_nameValidate _)
-
-theorem reach_checkAdmin (e : Env) (b : Bool) : Safe admissionSites (checkAdmin e b) := by
-  unfold checkAdmin; reach
-macro_rules | `(tactic| reach_lemma) => `(tactic| exact reach_checkAdmin _ _)
-
-theorem reach_rpcHasWrite (vals : List Str) : Safe admissionSites (rpcHasWrite vals) := by
-  induction vals with
-  | nil => exact safe_reject _
-  | cons v r ih => unfold rpcHasWrite; reach; exact ih
-macro_rules | `(tactic| reach_lemma) => `(tactic| exact reach_rpcHasWrite _)
-
-theorem reach_confValidate (e : Env) (k : Str) (c : Conf) (x : Option Conf) : Safe admissionSites (confValidate e k c x) := by
-  unfold confValidate; reach
-macro_rules | `(tactic| reach_lemma) => `(tactic| exact reach_confValidate _ _ _ _)
-
-theorem reach_checkRpc (e : Env) (i : Nat) (v : Str) : Safe admissionSites (checkRpc e i v) := by
-  unfold checkRpc; reach
-macro_rules | `(tactic| reach_lemma) => `(tactic| exact reach_checkRpc _ _ _)
-
-theorem reach_checkOp (e : Env) (k : Str) (i : Nat) (v : Str) : Safe admissionSites (checkOp e k i v) := by
-  unfold checkOp; reach
-macro_rules | `(tactic| reach_lemma) => `(tactic| exact reach_checkOp _ _ _ _)
-
-theorem reach_checkOps (e : Env) (k : Str) (i : Nat) (l : List Str) : Safe admissionSites (checkOps e k i l) := by
-  induction l generalizing i with
-  | nil => exact safe_ok _
-  | cons v r ih => unfold checkOps; reach; exact ih _
-macro_rules | `(tactic| reach_lemma) => `(tactic| exact reach_checkOps _ _ _ _)
-
-theorem reach_checkArgs (u : List Site) (e : Env) (ci : CallInfo) : Safe admissionSites (checkArgs u e ci) := by
-  unfold checkArgs; reach
-macro_rules | `(tactic| reach_lemma) => `(tactic| exact reach_checkArgs _ _ _)
-
-theorem reach_ccParse (e : Env) (kvs : List (Str × JVal)) : Safe admissionSites (ccParse e kvs) := by
-  unfold ccParse; reach
-macro_rules | `(tactic| reach_lemma) => `(tactic| exact reach_ccParse _ _)
-
-theorem reach_validateChangeCluster (e : Env) (ci : CallInfo) : Safe admissionSites (validateChangeCluster e ci) := by
-  unfold validateChangeCluster; reach
-macro_rules | `(tactic| reach_lemma) => `(tactic| exact reach_validateChangeCluster _ _)
-
-theorem reach_adminState (e : Env) (ci : CallInfo) (a : Str) (ad : List Nat) : Safe admissionSites (adminState e ci a ad) := by
-  unfold adminState; reach
-macro_rules | `(tactic| reach_lemma) => `(tactic| exact reach_adminState _ _ _ _)
-
-theorem reach_validateStored (e : Env) (k : Str) (c : Conf) : Safe admissionSites (validateStored e k c) := by
-  unfold validateStored; reach
-macro_rules | `(tactic| reach_lemma) => `(tactic| exact reach_validateStored _ _ _)
-
-theorem reach_modConf (ci : CallInfo) (c : Conf) (v : Str) : Safe admissionSites (modConf ci c v) := by
-  unfold modConf; reach
-macro_rules | `(tactic| reach_lemma) => `(tactic| exact reach_modConf _ _ _)
-
-theorem reach_entAdmin (u : List Site) (e : Env) (ci : CallInfo) : Safe admissionSites (entAdmin u e ci) := by
-  unfold entAdmin; reach
-theorem reach_entSetConf (u : List Site) (e : Env) (ci : CallInfo) : Safe admissionSites (entSetConf u e ci) := by
-  unfold entSetConf; reach
-theorem reach_entModConf (u : List Site) (e : Env) (ci : CallInfo) : Safe admissionSites (entModConf u e ci) := by
-  unfold entModConf; reach
-theorem reach_entEnableVal (e : Env) (ci : CallInfo) (a : Str) (v : JVal) : Safe admissionSites (entEnableVal e ci a v) := by
-  unfold entEnableVal; reach
-macro_rules | `(tactic| reach_lemma) => `(tactic| exact reach_entEnableVal _ _ _ _)
-theorem reach_entEnable (e : Env) (ci : CallInfo) : Safe admissionSites (entEnable e ci) := by
-  unfold entEnable; reach
-theorem reach_entCluster (e : Env) (ci : CallInfo) : Safe admissionSites (entCluster e ci) := by
-  unfold entCluster; reach
-
-theorem reach_entValidate (u : List Site) (e : Env) : Safe admissionSites (entValidate u e) := by
-  unfold entValidate
-  split
-  · exact safe_reject _
-  · split
-    · exact reach_entAdmin _ _ _
-    · split
-      · exact reach_entSetConf _ _ _
-      · split
-        · exact reach_entModConf _ _ _
-        · split
-          · exact reach_entEnable _ _
-          · split
-            · exact reach_entCluster _ _
-            · exact safe_reject _
-
-theorem reach_poolGov (u : List Site) (e : Env) : Safe admissionSites (poolGov u e) := by
-  unfold poolGov
-  split
-  · exact safe_void (reach_sysValidate _ _)
-  · split
-    · exact safe_void (reach_nameValidate _)
-    · split
-      · exact safe_void (reach_entValidate _ _)
-      · exact safe_ok _
-
-/-- Pool admission can only ever trap at an admission site. -/
-theorem reach_poolAdmit (u : List Site) (e : Env) : Safe admissionSites (poolAdmit u e) := by
-  unfold poolAdmit
-  apply safe_bind (reach_typesValidate _ _); intro _ _
-  apply safe_bind (safe_rejectIf _ _); intro _ _
-  split
-  · apply safe_bind (reach_senderState _ _); intro _ _
-    exact reach_poolGov _ _
-  · exact safe_ok _
-
 end Aergo.Admit
